@@ -226,6 +226,15 @@ class Explorer:
         status, solver, dt, extra = solve(self.assumptions, goal, timeout_ms or self.timeout_ms,
                                           use_cvc5=(expect == "proved"))
         self.solver_s += dt
+        if expect == "fail" and status == "proved":
+            # a discharged canary is only meaningful on a feasible path: if the path condition itself is
+            # contradictory (a branch taken because infeasibility could not be decided in time) skip it
+            chk = z3.Solver()
+            chk.set("timeout", int(timeout_ms or self.timeout_ms))
+            for a in self.assumptions:
+                chk.add(a)
+            if chk.check() == z3.unsat:
+                raise Infeasible()
         rec = dict(name=name, unit=self.unit, kind=kind, path=self.path_id, status=status,
                    solver=solver, seconds=round(dt, 4), expect=expect)
         if status != "proved":
@@ -282,8 +291,12 @@ def _t(x):
     if isinstance(x, int):
         return z3.IntVal(x)
     if isinstance(x, float):
-        if x != x or x in (float("inf"), float("-inf")):
-            raise Unsupported("non-finite float constant in symbolic arithmetic")
+        if x == float("inf"):
+            return INF          # opaque constant: only stored and compared for equality (trusted use)
+        if x == float("-inf"):
+            return -INF
+        if x != x:
+            raise Unsupported("NaN constant in symbolic arithmetic")
         return z3.RealVal(_float_as_rational(x))
     if z3.is_expr(x):
         return x
@@ -300,6 +313,7 @@ def _t(x):
     raise Unsupported("cannot convert %r to a z3 term" % (type(x),))
 
 
+INF = z3.Real("+inf")
 _FRAC_CACHE = {}
 
 
